@@ -3,9 +3,10 @@
 (* section, with the process-wide state it manipulates and the library files it reads:      *)
 (*   files     fexists (set of existing files), fimports, fitems (sequence of item ids),     *)
 (*             fver (modification time: a counter that grows with every new version)         *)
-(*   meta      theory_cache[user]: per name  known? / imports as remembered / timestamp /     *)
-(*             content = <<file, item id, parsed without error?>> (an item parses without     *)
-(*             error iff the theory it is parsed in holds everything its file's imports give) *)
+(*   meta      theory_cache[user]: per name  known? / imports as remembered (and the file's   *)
+(*             modification time when they were read) / timestamp of the content /             *)
+(*             content = <<file of origin, item id, parsed without error?>> (an item parses   *)
+(*             without error iff the theory it is parsed in has what its file needed originally) *)
 (*   thy       the global current theory (theory.thy): set of <<file, item id>>               *)
 (*   imported  python modules in sys.modules                                                 *)
 (* Python modules may load theories when first imported (ModuleBody), and load_theory_cache  *)
@@ -28,9 +29,10 @@
 EXTENDS Naturals, Sequences, FiniteSets, TLC
 
 CONSTANTS Theories, Imports, Modules, LazyImport, ModuleBody,
-          OpTheories, OpModules, MaxOps, AllowFault, Variants, GoodVariants,
+          OpTheories, OpModules, MaxOps, AllowFault, Variants, GoodVariants, PrintGood,
           Present0,        \* files that exist initially
           Items0,          \* [Theories -> Seq(Nat)] item ids of a file when it is (re)created
+          Origin,          \* [Theories -> Theories] a file created as a copy declares the names of the file it copies (else itself)
           FileOps,         \* set of <<kind, file, position, imports>>, kind in create/remove/reimport/ins/del
           LimitsOf,        \* [Theories -> SUBSET Nat] limits used in loads of a theory (0 = no limit)
           MaxDepth         \* recursion bound of the import walk (python's recursion limit)
@@ -59,16 +61,19 @@ SaneLib(fe, fi) == (\A x \in fe : RangeS(fi[x]) \subseteq fe) /\ FPeel(fe, fi, f
 ExpectOK(fe, fi, fit, t, lim) == /\ FClosure(fe, fi, t) \subseteq fe
                                  /\ FPeel(fe, fi, FClosure(fe, fi, t)) = {}
                                  /\ (lim = 0 \/ lim \in RangeS(fit[t]))
-Toks(fit, d) == { <<d, id>> : id \in RangeS(fit[d]) }
+Toks(fit, d) == { <<Origin[d], id>> : id \in RangeS(fit[d]) }
 PosIn(s, x) == IF InSeq(s, x) THEN Min({ k \in 1..Len(s) : s[k] = x }) ELSE 0
 ExpectedToks(fe, fi, fit, t, lim) ==
   UNION { Toks(fit, d) : d \in FBelow(fe, fi, t) }
-  \cup { <<t, fit[t][k]>> : k \in 1..(IF lim = 0 THEN Len(fit[t]) ELSE PosIn(fit[t], lim) - 1) }
-\* an item of file f parses without error iff the theory it is parsed in has all items of the (existing) files below f
-CtxGood(fe, fi, fit, f, ctx) == UNION { Toks(fit, d) : d \in FBelow(fe, fi, f) \cap fe } \subseteq ctx
+  \cup { <<Origin[t], fit[t][k]>> : k \in 1..(IF lim = 0 THEN Len(fit[t]) ELSE PosIn(fit[t], lim) - 1) }
+\* The items of file f were written against the library as it was: they parse without error iff the theory they are parsed in has
+\* the original items (those that are still there) of the files that were below f originally.  More imports do no harm.
+CtxGood(fe, fi, fit, f, ctx) ==
+  UNION { { <<Origin[d], id>> : id \in RangeS(Items0[d]) \cap RangeS(fit[d]) } : d \in FBelow(Theories, Imports, f) } \subseteq ctx
 
 \* ------------------------------------------------------------------ what the PROCESS remembers
-AbsentRec == [known |-> FALSE, imports |-> <<>>, hasTs |-> FALSE, ts |-> 0, content |-> <<>>]
+\* its: modification time of the file when its imports were read (0: never); ts: when its content was complete
+AbsentRec == [known |-> FALSE, imports |-> <<>>, its |-> 0, hasTs |-> FALSE, ts |-> 0, content |-> <<>>]
 EmptyRec == [AbsentRec EXCEPT !.known = TRUE]
 MImp(mt, n) == RangeS(mt[n].imports)
 RECURSIVE MReach(_, _)
@@ -81,7 +86,7 @@ Current(mt, fe, fv, n) == n \in fe /\ mt[n].known /\ mt[n].hasTs /\ mt[n].ts = f
 Settled(mt, fe, fv, n) == LET C == MClosure(mt, n) IN (\A x \in C : Current(mt, fe, fv, x)) /\ MPeel(mt, C) = {}
 GoodToks(c, n) == { <<c[k][1], c[k][2]>> : k \in { k2 \in 1..n : c[k2][3] } }
 AllToks(c) == { <<c[k][1], c[k][2]>> : k \in 1..Len(c) }
-Parsed(fit, f, n, ok) == [k \in 1..n |-> <<f, fit[f][k], ok>>]
+Parsed(fit, f, n, ok) == [k \in 1..n |-> <<Origin[f], fit[f][k], ok>>]
 PosOfLimit(c, lim) == LET K == { k \in 1..Len(c) : c[k][2] = lim } IN IF K = {} THEN 0 ELSE Min(K)
 InsertAt(s, p, x) == SubSeq(s, 1, p) \o <<x>> \o SubSeq(s, p + 1, Len(s))
 RemoveAt(s, p) == SubSeq(s, 1, p) \o SubSeq(s, p + 2, Len(s))
@@ -114,6 +119,7 @@ define
   RefreshDeps == "staledeps" \notin var
   IsCurrent(n) == metaLoaded /\ Current(meta, fexists, fver, n)
   IsSettled(n) == metaLoaded /\ Settled(meta, fexists, fver, n)
+  ImportsCurrent(n) == n \in fexists /\ meta[n].known /\ meta[n].its = fver[n]
   MetaImports == [t \in Theories |-> meta[t].imports]
   FileOpEnabled(o) ==
     CASE o[1] = "create" -> o[2] \notin fexists
@@ -155,8 +161,9 @@ d0: if InSeq(order, dn) then return;
     elsif IsSettled(dn) then order := DepOrderF(MetaImports, <<dn>>, order); return;
     elsif Len(stack[self]) > MaxDepth then exc := "recursion"; return;
     end if;
-d1: if ~meta[dn].known \/ (RefreshDeps /\ ~IsCurrent(dn)) then
-      \* an unknown name (file created later) is read first; the fixed mechanism re-reads every file that is not current
+d1: if ~meta[dn].known \/ (RefreshDeps /\ ~ImportsCurrent(dn)) then
+      \* an unknown name (file created later) is read first; the mechanism with the property also re-reads a file that was
+      \* removed or has changed since its imports were read
       call LoadCache(dn);
     end if;
 d2: if exc # "none" then return; end if;
@@ -185,7 +192,7 @@ begin
 lc0: if IsCurrent(f) then return; end if;
 lcm: if ~metaLoaded then
        \* load_metadata: the imports of every file there is; then the cycle check (a dangling import is a KeyError)
-       meta := [t \in Theories |-> IF t \in fexists THEN [EmptyRec EXCEPT !.imports = fimports[t]] ELSE AbsentRec];
+       meta := [t \in Theories |-> IF t \in fexists THEN [EmptyRec EXCEPT !.imports = fimports[t], !.its = fver[t]] ELSE AbsentRec];
        metaLoaded := TRUE;
        if ~SaneLib(fexists, fimports) then exc := "metadata"; end if;
      end if;
@@ -199,7 +206,8 @@ lce: if exc # "none" then return;
      elsif IsCurrent(f) then return;
      else
        \* the file is new or has changed: its imports may have changed as well
-       meta[f] := [(IF meta[f].known THEN meta[f] ELSE EmptyRec) EXCEPT !.imports = IF RefreshMeta \/ ~meta[f].known THEN fimports[f] ELSE @];
+       meta[f] := [(IF meta[f].known THEN meta[f] ELSE EmptyRec) EXCEPT !.imports = IF RefreshMeta \/ ~meta[f].known THEN fimports[f] ELSE @,
+                                                                        !.its = IF RefreshMeta \/ ~meta[f].known THEN fver[f] ELSE @];
      end if;
 lc1: if LazyImport[f] # "none" then
        keep := thy;
@@ -340,7 +348,8 @@ m1:   with okf = IF kind # "load" THEN TRUE
                       THEN (IF SaneLib(fexists, fimports) THEN exc = "none" ELSE TRUE)
                            /\ (exc = "none" => thy = ExpectedToks(fexists, fimports, fitems, target, lim))
                       ELSE exc # "none" do
-        print <<"H", var, hist, <<kind, target, lim, arg>>, exc, okf>>;
+        \* the history ends that the harness replays on the real code: those that go wrong, and every one of the good mechanisms
+        if ~okf \/ (PrintGood /\ var \in GoodVariants) then print <<"H", var, hist, <<kind, target, lim, arg>>, exc, okf>>; end if;
         good := good /\ okf;
       end with;
       hist := Append(hist, <<kind, target, lim, arg>>);
@@ -363,6 +372,7 @@ LimitById == "limitpos" \notin var
 RefreshDeps == "staledeps" \notin var
 IsCurrent(n) == metaLoaded /\ Current(meta, fexists, fver, n)
 IsSettled(n) == metaLoaded /\ Settled(meta, fexists, fver, n)
+ImportsCurrent(n) == n \in fexists /\ meta[n].known /\ meta[n].its = fver[n]
 MetaImports == [t \in Theories |-> meta[t].imports]
 FileOpEnabled(o) ==
   CASE o[1] = "create" -> o[2] \notin fexists
@@ -550,7 +560,7 @@ d0(self) == /\ pc[self] = "d0"
                             kind, lim, arg >>
 
 d1(self) == /\ pc[self] = "d1"
-            /\ IF ~meta[dn[self]].known \/ (RefreshDeps /\ ~IsCurrent(dn[self]))
+            /\ IF ~meta[dn[self]].known \/ (RefreshDeps /\ ~ImportsCurrent(dn[self]))
                   THEN /\ /\ f' = [f EXCEPT ![self] = dn[self]]
                           /\ stack' = [stack EXCEPT ![self] = << [ procedure |->  "LoadCache",
                                                                    pc        |->  "d2",
@@ -709,7 +719,7 @@ lc0(self) == /\ pc[self] = "lc0"
 
 lcm(self) == /\ pc[self] = "lcm"
              /\ IF ~metaLoaded
-                   THEN /\ meta' = [t \in Theories |-> IF t \in fexists THEN [EmptyRec EXCEPT !.imports = fimports[t]] ELSE AbsentRec]
+                   THEN /\ meta' = [t \in Theories |-> IF t \in fexists THEN [EmptyRec EXCEPT !.imports = fimports[t], !.its = fver[t]] ELSE AbsentRec]
                         /\ metaLoaded' = TRUE
                         /\ IF ~SaneLib(fexists, fimports)
                               THEN /\ exc' = "metadata"
@@ -758,7 +768,8 @@ lce(self) == /\ pc[self] = "lce"
                                               /\ f' = [f EXCEPT ![self] = Head(stack[self]).f]
                                               /\ stack' = [stack EXCEPT ![self] = Tail(stack[self])]
                                               /\ meta' = meta
-                                         ELSE /\ meta' = [meta EXCEPT ![f[self]] = [(IF meta[f[self]].known THEN meta[f[self]] ELSE EmptyRec) EXCEPT !.imports = IF RefreshMeta \/ ~meta[f[self]].known THEN fimports[f[self]] ELSE @]]
+                                         ELSE /\ meta' = [meta EXCEPT ![f[self]] = [(IF meta[f[self]].known THEN meta[f[self]] ELSE EmptyRec) EXCEPT !.imports = IF RefreshMeta \/ ~meta[f[self]].known THEN fimports[f[self]] ELSE @,
+                                                                                                                                                     !.its = IF RefreshMeta \/ ~meta[f[self]].known THEN fver[f[self]] ELSE @]]
                                               /\ pc' = [pc EXCEPT ![self] = "lc1"]
                                               /\ UNCHANGED << stack, f, deps, 
                                                               i, saved, keep, 
@@ -1232,7 +1243,9 @@ m1 == /\ pc["main"] = "m1"
                          THEN (IF SaneLib(fexists, fimports) THEN exc = "none" ELSE TRUE)
                               /\ (exc = "none" => thy = ExpectedToks(fexists, fimports, fitems, target, lim))
                          ELSE exc # "none" IN
-           /\ PrintT(<<"H", var, hist, <<kind, target, lim, arg>>, exc, okf>>)
+           /\ IF ~okf \/ (PrintGood /\ var \in GoodVariants)
+                 THEN /\ PrintT(<<"H", var, hist, <<kind, target, lim, arg>>, exc, okf>>)
+                 ELSE /\ TRUE
            /\ good' = (good /\ okf)
       /\ hist' = Append(hist, <<kind, target, lim, arg>>)
       /\ faultAt' = "none"
